@@ -50,6 +50,14 @@ type pureItem struct {
 	dropParams   []string
 	extraResults []string           // variables returned in addition to the function's results
 	seq          map[string][]abstr // source text of a call -> successive values, one per occurrence in source order
+	writers      map[string]writer  // callee text of a one-argument call statement -> append to a byte-list variable
+}
+
+// writer: `callee(arg)` as a statement appends format(arg) to the byte list named buf
+type writer struct {
+	buf    string // the variable
+	argTyp string // Go type the argument is translated at
+	format string // Lean text with one %s for the translated argument
 }
 
 type repl struct {
@@ -63,6 +71,33 @@ type pureStruct struct{ file, name string }
 var pureStructs = []pureStruct{
 	{"internal/sender/fileio.go", "mapStruct"},
 	{"types.go", "SumHead"},
+}
+
+var rfeAbstract = map[string]abstr{
+	"[]byte(last.Name)": {"lastName", "[]byte"}, "last.ModTime": {"lastModTime", "int32"}, "last.Mode": {"lastMode", "int32"},
+	"last.Uid": {"lastUid", "int32"}, "last.Gid": {"lastGid", "int32"}, "last.Rdev": {"lastRdev", "int32"},
+	"rt.Opts.PreserveUid": {"preserveUid", "bool"}, "rt.Opts.PreserveGid": {"preserveGid", "bool"}, "rt.Opts.PreserveLinks": {"preserveLinks", "bool"},
+	"rt.Opts.PreserveDevices": {"preserveDevices", "bool"}, "rt.Opts.PreserveSpecials": {"preserveSpecials", "bool"}, "rt.Opts.AlwaysChecksum": {"alwaysChecksum", "bool"},
+	"f.Name": {"fName", "[]byte"}, "f.Length": {"fLength", "int64"}, "f.ModTime": {"fModTime", "int32"}, "f.Mode": {"fMode", "int32"},
+	"f.Uid": {"fUid", "int32"}, "f.Gid": {"fGid", "int32"}, "f.Rdev": {"fRdev", "int32"}, "f.LinkTarget": {"fLinkTarget", "[]byte"},
+	"filepath.Clean(string(b))": {"(PathClean.clean b)", "[]byte"}, "string(b)": {"b", "[]byte"},
+	"time.Unix(int64(modTime), 0)": {"modTime", "int32"},
+}
+
+var rfeReplace = map[string]repl{
+	"l, err := rt.Conn.ReadByte()":        {"Go.bind (Go.readByte inp) fun (l, inp) =>", []string{"inp"}, []pvar{{"l", "byte"}}},
+	"l, err := rt.Conn.ReadInt32()":       {"Go.bind (Go.readI32 inp) fun (l, inp) =>", []string{"inp"}, []pvar{{"l", "int32"}}},
+	"length, err := rt.Conn.ReadInt64()":  {"Go.bind (Gen.Pure.ReadInt64 inp) fun (length, inp) =>", []string{"inp"}, []pvar{{"length", "int64"}}},
+	"length, err := rt.Conn.ReadInt32()":  {"Go.bind (Go.readI32 inp) fun (length, inp) =>", []string{"inp"}, []pvar{{"length", "int32"}}},
+	"modTime, err := rt.Conn.ReadInt32()": {"Go.bind (Go.readI32 inp) fun (modTime, inp) =>", []string{"inp"}, []pvar{{"modTime", "int32"}}},
+	"mode, err := rt.Conn.ReadInt32()":    {"Go.bind (Go.readI32 inp) fun (mode, inp) =>", []string{"inp"}, []pvar{{"mode", "int32"}}},
+	"uid, err := rt.Conn.ReadInt32()":     {"Go.bind (Go.readI32 inp) fun (uid, inp) =>", []string{"inp"}, []pvar{{"uid", "int32"}}},
+	"gid, err := rt.Conn.ReadInt32()":     {"Go.bind (Go.readI32 inp) fun (gid, inp) =>", []string{"inp"}, []pvar{{"gid", "int32"}}},
+	"rdev, err := rt.Conn.ReadInt32()":    {"Go.bind (Go.readI32 inp) fun (rdev, inp) =>", []string{"inp"}, []pvar{{"rdev", "int32"}}},
+	// readb aliases the tail of b (b itself, or b[l1:]): what is read into it lands in b
+	"if _, err := io.ReadFull(rt.Conn.Reader, readb)":         {"Go.bind (Go.readFull inp (readb.length : Int)) fun (readb, inp) =>\nlet b := b.take (b.length - readb.length) ++ readb;", []string{"b", "readb", "inp"}, nil},
+	"if _, err := io.ReadFull(rt.Conn.Reader, b)":             {"Go.bind (Go.readFull inp (b.length : Int)) fun (b, inp) =>", []string{"b", "inp"}, nil},
+	"if _, err := io.ReadFull(rt.Conn.Reader, f.Checksum[:])": {"Go.bind (Go.readFull inp 16) fun (fChecksum, inp) =>", []string{"fChecksum", "inp"}, nil},
 }
 
 var pureItems = []pureItem{
@@ -213,6 +248,111 @@ var pureItems = []pureItem{
 		replace: map[string]repl{
 			"if err := binary.Read(w.Reader, binary.LittleEndian, &header)": {"Go.bind (Go.readU32 inp) fun (header, inp) =>", []string{"header", "inp"}, nil},
 			"if _, err := io.ReadFull(w.Reader, p)":                         {"Go.bind (Go.readFull inp (p.length : Int)) fun (p, inp) =>", []string{"p", "inp"}, nil}}},
+	// wire: the 64-bit read (a 32-bit value unless it is -1), input as a consumed byte list
+	{name: "ReadInt64", file: "internal/rsyncwire/wire.go", fn: "Conn.ReadInt64",
+		dropParams: []string{"c"}, extra: []pvar{{"inp", "[]byte"}}, extraResults: []string{"inp"},
+		replace: map[string]repl{
+			"data, err := c.ReadInt32()":                                  {"Go.bind (Go.readI32 inp) fun (data, inp) =>", []string{"inp"}, []pvar{{"data", "int32"}}},
+			"if err := binary.Read(c.Reader, binary.LittleEndian, &data)": {"Go.bind (Go.readI64 inp) fun (data, inp) =>", []string{"data", "inp"}, nil}}},
+	// receiver/flist.go receiveFileEntry: one file-list entry read from the wire; the entry under construction and
+	// the previous entry are their fields; the connection's input is a byte list that is consumed
+	{name: "receiveFileEntry", file: "internal/receiver/flist.go", fn: "receiveFileEntry",
+		from: "var l1 int", to: "if rt.Opts.AlwaysChecksum",
+		params: []pvar{{"flags", "uint16"}, {"inp", "[]byte"},
+			{"lastName", "[]byte"}, {"lastModTime", "int32"}, {"lastMode", "int32"}, {"lastUid", "int32"}, {"lastGid", "int32"}, {"lastRdev", "int32"},
+			{"preserveUid", "bool"}, {"preserveGid", "bool"}, {"preserveLinks", "bool"}, {"preserveDevices", "bool"}, {"preserveSpecials", "bool"}, {"alwaysChecksum", "bool"},
+			{"fName", "[]byte"}, {"fLength", "int64"}, {"fModTime", "int32"}, {"fMode", "int32"}, {"fUid", "int32"}, {"fGid", "int32"}, {"fRdev", "int32"},
+			{"fLinkTarget", "[]byte"}, {"fChecksum", "[]byte"}},
+		abstract: rfeAbstract, replace: rfeReplace,
+		results: []string{"fName", "fLength", "fModTime", "fMode", "fUid", "fGid", "fRdev", "fLinkTarget", "fChecksum", "inp"}},
+	// the same function in four consecutive statement ranges (name; length, time, mode; ids; link target and checksum)
+	{name: "rfeName", file: "internal/receiver/flist.go", fn: "receiveFileEntry",
+		from: "var l1 int", to: "f.Name = filepath.Clean(string(b))",
+		params:   []pvar{{"flags", "uint16"}, {"inp", "[]byte"}, {"lastName", "[]byte"}, {"fName", "[]byte"}},
+		abstract: rfeAbstract, replace: rfeReplace, results: []string{"fName", "inp"}},
+	{name: "rfeNameLen", file: "internal/receiver/flist.go", fn: "receiveFileEntry",
+		from: "var l1 int", to: "if flags&rsync.XMIT_LONG_NAME != 0",
+		params:   []pvar{{"flags", "uint16"}, {"inp", "[]byte"}},
+		abstract: rfeAbstract, replace: rfeReplace, results: []string{"l1", "l2", "inp"}},
+	{name: "rfeNameBody", file: "internal/receiver/flist.go", fn: "receiveFileEntry",
+		from: "~const PATH_MAX = 4096", to: "f.Name = filepath.Clean(string(b))",
+		params:   []pvar{{"l1", "int"}, {"l2", "int"}, {"inp", "[]byte"}, {"lastName", "[]byte"}, {"fName", "[]byte"}},
+		abstract: rfeAbstract, replace: rfeReplace, results: []string{"fName", "inp"}},
+	{name: "rfeBasic", file: "internal/receiver/flist.go", fn: "receiveFileEntry",
+		from: "length, err := rt.Conn.ReadInt64()", to: "if flags&rsync.XMIT_SAME_MODE != 0",
+		params:   []pvar{{"flags", "uint16"}, {"inp", "[]byte"}, {"lastModTime", "int32"}, {"lastMode", "int32"}, {"fLength", "int64"}, {"fModTime", "int32"}, {"fMode", "int32"}},
+		abstract: rfeAbstract, replace: rfeReplace, results: []string{"fLength", "fModTime", "fMode", "inp"}},
+	{name: "rfeIds", file: "internal/receiver/flist.go", fn: "receiveFileEntry",
+		from: "if rt.Opts.PreserveUid", to: "if (rt.Opts.PreserveDevices && isDev)",
+		params: []pvar{{"flags", "uint16"}, {"inp", "[]byte"}, {"lastUid", "int32"}, {"lastGid", "int32"}, {"lastRdev", "int32"},
+			{"preserveUid", "bool"}, {"preserveGid", "bool"}, {"preserveDevices", "bool"}, {"preserveSpecials", "bool"},
+			{"fMode", "int32"}, {"fUid", "int32"}, {"fGid", "int32"}, {"fRdev", "int32"}},
+		abstract: rfeAbstract, replace: rfeReplace, results: []string{"fUid", "fGid", "fRdev", "inp"}},
+	{name: "rfeExtra", file: "internal/receiver/flist.go", fn: "receiveFileEntry",
+		from: "if rt.Opts.PreserveLinks && isLink", to: "if rt.Opts.AlwaysChecksum",
+		params: []pvar{{"inp", "[]byte"}, {"isLink", "bool"}, {"preserveLinks", "bool"}, {"alwaysChecksum", "bool"},
+			{"fName", "[]byte"}, {"fLength", "int64"}, {"fModTime", "int32"}, {"fMode", "int32"}, {"fUid", "int32"}, {"fGid", "int32"}, {"fRdev", "int32"},
+			{"fLinkTarget", "[]byte"}, {"fChecksum", "[]byte"}},
+		abstract: rfeAbstract, replace: rfeReplace,
+		results: []string{"fName", "fLength", "fModTime", "fMode", "fUid", "fGid", "fRdev", "fLinkTarget", "fChecksum", "inp"}},
+	// receiver/flist.go ReceiveFileList: the entry loop (flag byte 0 ends the list; every entry inherits from the one before)
+	{name: "recvListLoop", file: "internal/receiver/flist.go", fn: "ReceiveFileList",
+		from: "for {", to: "for {",
+		params: []pvar{{"inp", "[]byte"}, {"fileList", "[]file"},
+			{"lastName", "[]byte"}, {"lastModTime", "int32"}, {"lastMode", "int32"}, {"lastUid", "int32"}, {"lastGid", "int32"}, {"lastRdev", "int32"},
+			{"preserveUid", "bool"}, {"preserveGid", "bool"}, {"preserveLinks", "bool"}, {"preserveDevices", "bool"}, {"preserveSpecials", "bool"}, {"alwaysChecksum", "bool"}},
+		fuel: []string{"inp.length + 1"},
+		drop: []string{"if rt.Opts.DebugGTE(rsyncopts.DEBUG_FLIST, 1)", "if rt.Opts.Progress && len(fileList)%100 == 0"},
+		replace: map[string]repl{
+			"b, err := rt.Conn.ReadByte()": {"Go.bind (Go.readByte inp) fun (b, inp) =>", []string{"inp"}, []pvar{{"b", "byte"}}},
+			"f, err := rt.receiveFileEntry(flags, lastFileEntry)": {"Go.bind (Gen.Pure.receiveFileEntry flags inp lastName lastModTime lastMode lastUid lastGid lastRdev preserveUid preserveGid preserveLinks preserveDevices preserveSpecials alwaysChecksum [] 0 0 0 0 0 0 [] []) fun (fName, fLength, fModTime, fMode, fUid, fGid, fRdev, fLinkTarget, fChecksum, inp) =>", []string{"inp"},
+				[]pvar{{"fName", "[]byte"}, {"fLength", "int64"}, {"fModTime", "int32"}, {"fMode", "int32"}, {"fUid", "int32"}, {"fGid", "int32"}, {"fRdev", "int32"}, {"fLinkTarget", "[]byte"}, {"fChecksum", "[]byte"}}},
+			"lastFileEntry = f": {"let lastName := fName; let lastModTime := fModTime; let lastMode := fMode; let lastUid := fUid; let lastGid := fGid; let lastRdev := fRdev;",
+				[]string{"lastName", "lastModTime", "lastMode", "lastUid", "lastGid", "lastRdev"}, nil},
+			"fileList = append(fileList, f)": {"let fileList := fileList ++ [Go.FileRec.mk fName fLength fModTime fMode fUid fGid fRdev fLinkTarget fChecksum];", []string{"fileList"}, nil}},
+		results: []string{"fileList", "inp"}},
+	// sender/flist.go walkFn: the flag byte of an entry
+	{name: "sendEntryFlags", file: "internal/sender/flist.go", fn: "walkFn",
+		from: "flags := byte(rsync.XMIT_LONG_NAME)", to: "if name == \".\"",
+		params:   []pvar{{"nameIsDot", "bool"}},
+		abstract: map[string]abstr{"name == \".\"": {"nameIsDot", "bool"}},
+		drop:     []string{"name := path", "if s.strip != \"\"", "if opts.DebugGTE("},
+		results:  []string{"flags"}},
+	// sender/flist.go walkFn: one entry as it is written to the wire (the buffer `s.fec` is a byte list); what
+	// the file system says about the entry is a set of parameters
+	{name: "sendEntry", file: "internal/sender/flist.go", fn: "walkFn",
+		from: "s.fec.Reset()", to: "if opts.AlwaysChecksum()",
+		params: []pvar{{"flags", "byte"}, {"name", "[]byte"}, {"infoSize", "int64"}, {"mtime", "int32"}, {"perm", "int32"},
+			{"isDir", "bool"}, {"isRegular", "bool"}, {"isSymlink", "bool"}, {"isCharDev", "bool"}, {"isDevice", "bool"}, {"isPipe", "bool"}, {"isSocket", "bool"},
+			{"uid", "int32"}, {"gid", "int32"}, {"rdev", "int32"}, {"target", "[]byte"}, {"fileSum", "[]byte"},
+			{"preserveUid", "bool"}, {"preserveGid", "bool"}, {"preserveLinks", "bool"}, {"preserveDevices", "bool"}, {"preserveSpecials", "bool"}, {"alwaysChecksum", "bool"},
+			{"fec", "[]byte"}},
+		abstract: map[string]abstr{
+			"info.Size()": {"infoSize", "int64"}, "info.Mode().IsDir()": {"isDir", "bool"}, "info.Mode().IsRegular()": {"isRegular", "bool"},
+			"info.Mode().Type()&os.ModeSymlink != 0": {"isSymlink", "bool"}, "info.Mode().Type()&os.ModeCharDevice != 0": {"isCharDev", "bool"},
+			"info.Mode().Type()&os.ModeDevice != 0": {"isDevice", "bool"}, "info.Mode().Type()&os.ModeNamedPipe != 0": {"isPipe", "bool"},
+			"info.Mode().Type()&os.ModeSocket != 0": {"isSocket", "bool"},
+			"int32(info.ModTime().Unix())":          {"mtime", "int32"}, "int32(info.Mode() & os.ModePerm)": {"perm", "int32"},
+			"opts.PreserveUid()": {"preserveUid", "bool"}, "opts.PreserveGid()": {"preserveGid", "bool"}, "opts.PreserveLinks()": {"preserveLinks", "bool"},
+			"opts.PreserveDevices()": {"preserveDevices", "bool"}, "opts.PreserveSpecials()": {"preserveSpecials", "bool"}, "opts.AlwaysChecksum()": {"alwaysChecksum", "bool"},
+			"string(checksum)": {"checksum", "[]byte"}},
+		writers: map[string]writer{
+			"s.fec.WriteByte":   {"fec", "byte", "[%s]"},
+			"s.fec.WriteInt32":  {"fec", "int32", "Wire.encI32 %s"},
+			"s.fec.WriteInt64":  {"fec", "int64", "Wire.encLong (Int64.ofInt %s)"},
+			"s.fec.WriteString": {"fec", "[]byte", "%s"}},
+		drop: []string{"s.fileList.TotalSize += size", "if ok {", "f.Close()"},
+		replace: map[string]repl{
+			"s.fec.Reset()":                                   {"let fec : List UInt8 := [];", []string{"fec"}, nil},
+			"uid, ok := uidFromFileInfo(info)":                {"", nil, nil},
+			"gid, ok := gidFromFileInfo(info)":                {"", nil, nil},
+			"rdev, _ := rdevFromFileInfo(info)":               {"", nil, nil},
+			"target, err := s.source.Readlink(path)":          {"", nil, nil},
+			"var emptyChecksum [rsyncchecksum.Size]byte":      {"", nil, nil},
+			"checksum := emptyChecksum[:]":                    {"let checksum : List UInt8 := List.replicate 16 0;", nil, []pvar{{"checksum", "[]byte"}}},
+			"f, err := s.source.Open(path)":                   {"", nil, nil},
+			"checksum, err = rsyncchecksum.ReaderChecksum(f)": {"let checksum : List UInt8 := fileSum;", []string{"checksum"}, nil}},
+		results: []string{"fec"}},
 	// wire: multiplex frame header, and its decoding
 	{name: "muxHeader", file: "internal/rsyncwire/wire.go", fn: "WriteMsg",
 		from: "header := uint32(mplexBase+tag)<<24 | uint32(len(p))", to: "header := uint32(mplexBase+tag)<<24 | uint32(len(p))",
@@ -261,7 +401,7 @@ func pureIdent(s string) string {
 var leanTypes = map[string]string{
 	"uint8": "UInt8", "byte": "UInt8", "uint16": "UInt16", "uint32": "UInt32", "uint64": "UInt64",
 	"int8": "Int8", "int16": "Int16", "int32": "Int32", "int": "Int", "int64": "Int",
-	"bool": "Bool", "[]byte": "List UInt8", "[]out": "List Go.Out",
+	"bool": "Bool", "[]byte": "List UInt8", "[]out": "List Go.Out", "[]file": "List Go.FileRec",
 }
 
 func isFixed(t string) bool {
@@ -938,6 +1078,11 @@ func (p *ptr) assigned(stmts []ast.Stmt, declared map[string]bool, out *[]string
 			if c, ok := v.X.(*ast.CallExpr); ok && p.r.src(c.Fun) == "copy" {
 				add(p.lhsBase(c.Args[0]))
 			}
+			if c, ok := v.X.(*ast.CallExpr); ok {
+				if wr, ok := p.it.writers[p.r.src(c.Fun)]; ok {
+					add(wr.buf)
+				}
+			}
 		}
 	}
 }
@@ -1182,6 +1327,20 @@ func (p *ptr) stmts(list []ast.Stmt, k func() string, w *strings.Builder) {
 		}
 		fn := p.r.src(c.Fun)
 		if strings.HasSuffix(fn, "Logger.Printf") || strings.HasSuffix(fn, ".Logf") || fn == "log.Printf" {
+			cont()
+			return
+		}
+		if wr, ok := p.it.writers[fn]; ok && len(c.Args) == 1 {
+			var bs binds
+			a, t := p.expr(c.Args[0], wr.argTyp, &bs)
+			if t == "untyped" {
+				a, t = p.expr(c.Args[0], wr.argTyp, &bs)
+			}
+			if t != wr.argTyp && !(wr.argTyp == "byte" && t == "uint8") && !(isBigInt(wr.argTyp) && isBigInt(t)) {
+				p.failf("writer %s: argument %s has type %s, want %s", fn, p.r.src(c.Args[0]), t, wr.argTyp)
+			}
+			p.flush(bs, w)
+			fmt.Fprintf(w, "let %s := %s ++ %s;\n", pureIdent(wr.buf), pureIdent(wr.buf), fmt.Sprintf(wr.format, paren(a)))
 			cont()
 			return
 		}
@@ -1704,7 +1863,7 @@ func (r *repo) methodDecl(rel, name string) *ast.FuncDecl {
 
 func genPure(r *repo) string {
 	var b strings.Builder
-	b.WriteString("import RsyncModel.GoSem\n/-! GENERATED by /verif/tools/extract (pure.go) from /repo on every run — do not edit.\nEach definition is the translation of the named Go function or statement range. -/\nset_option linter.unusedVariables false\nnamespace Gen.Pure\n\n")
+	b.WriteString("import RsyncModel.GoSem\nimport RsyncModel.PathClean\n/-! GENERATED by /verif/tools/extract (pure.go) from /repo on every run — do not edit.\nEach definition is the translation of the named Go function or statement range. -/\nset_option linter.unusedVariables false\nnamespace Gen.Pure\n\n")
 	structs := map[string][]pvar{}
 	p0 := &ptr{r: r, structs: structs}
 	for _, ps := range pureStructs {
